@@ -174,6 +174,26 @@ def run_compass(texts, h, w):
 def job(args):
     kind, name, h, w, texts, extra = args
     sys.setrecursionlimit(1000)
+    import signal
+
+    class _Hang(Exception):
+        pass
+
+    def _onalarm(signum, frame):
+        raise _Hang()
+    signal.signal(signal.SIGALRM, _onalarm)
+    signal.alarm(600)               # a decoder that does not return is the same kind of failure as one that crashes
+    try:
+        return _job(kind, name, h, w, texts, extra)
+    except _Hang:
+        return {"kind": kind, "decoder": name, "h": h, "w": w, "n": len(texts), "n_none": 0, "n_valueerror": 0, "n_raised": 1,
+                "outs": [{"k": 0, "outcome": "raised", "exc": "DidNotReturnWithin600sSomewhereInThisBatch", "dims_ok": True,
+                          "reencode": "skipped", "exc2": "", "same": True}]}
+    finally:
+        signal.alarm(0)
+
+
+def _job(kind, name, h, w, texts, extra):
     if kind == "url":
         r = run_url(name, texts, h, w)
     elif kind == "frame":
